@@ -74,13 +74,14 @@ def stepVg (s : File) (args : List String) : File × String :=
   | ["diskrec", r] => match r.toNat? with
     | some r => (s, match alook r s.disk with | some b => toHex b | none => "fail")
     | none => (s, "bad-op")
+  | ["config", "fixed3", b] => ({ s with fixed3 := b == "1" }, "ok")
   | ["putrec", r, h] => match r.toNat?, parseHex h with
     | some r, some b => ({ s with disk := ains r b s.disk }, "ok")
     | _, _ => (s, "bad-op")
   | ["packrec", mem, nm, cl, extag, exref, ver, more, flags, attrs] =>
     match parsePairs mem, parseName nm, parseName cl, extag.toNat?, exref.toNat?, ver.toNat?, more.toNat?, flags.toNat?, parsePairs attrs with
     | some members, some name, some cls, some extag, some exref, some version, some more, some flags, some attrs =>
-      (s, toHex (vpackvg { members, name, cls, extag, exref, version, more, flags, attrs }))
+      (s, toHex (vpackvgF s.fixed3 { members, name, cls, extag, exref, version, more, flags, attrs }))
     | _, _, _, _, _, _, _, _, _ => (s, "bad-op")
   | ["unpackrec", h] => match parseHex h with
     | some b => (s, match vunpackvg b with | some g => showVG g | none => "fail")
